@@ -113,14 +113,16 @@ def kKeyBlocksize : Str := keyPrefix ++ kBlocksize
 
 /-! ## dict primitives -/
 /-- `c.get(k)` / `c[k]` (`none` = absent) -/
-def get (c : Ctx) (k : Str) : Option Val := List.lookup k c
+def get : Ctx → Str → Option Val
+  | [], _ => Option.none
+  | p :: t, k => if k = p.1 then some p.2 else get t k
 /-- `k in c` -/
 def has (c : Ctx) (k : Str) : Bool := (get c k).isSome
 /-- `c.pop(k, None)` / `del c[k]` as far as the remaining dict is concerned -/
-def erase (c : Ctx) (k : Str) : Ctx := c.filter (fun p => !(p.1 == k))
+def erase (c : Ctx) (k : Str) : Ctx := c.filter (fun p => decide (p.1 ≠ k))
 /-- `c[k] = v`: an existing key keeps its position, a new key is appended -/
 def set (c : Ctx) (k : Str) (v : Val) : Ctx :=
-  if has c k then c.map (fun p => if p.1 == k then (p.1, v) else p) else c ++ [(k, v)]
+  if has c k then c.map (fun p => if p.1 = k then (p.1, v) else p) else c ++ [(k, v)]
 /-- `list(c.keys())` -/
 def keys (c : Ctx) : List Str := c.map (·.1)
 
@@ -210,9 +212,10 @@ def collect : List Str → Ctx → Except Exc Key
 
 /-- `key_class(**context)`: an unexpected keyword is a `TypeError` -/
 def construct (fields : List Str) (c : Ctx) : Except Exc Key :=
-  if (keys c).all (fun k => fields.contains k) then collect fields c else .error .typeError
+  if (keys c).all (fun k => decide (k ∈ fields)) then collect fields c else .error .typeError
 
-def normalizeWith (fields : List Str) (c0 : Ctx) : Except Exc Key :=
+/-- the first half of the normaliser: lower-casing and freezing, in source order -/
+def pre (c0 : Ctx) : Except Exc Ctx :=
   match lowerKey c0 kScheme with
   | .error e => .error e
   | .ok c1 => match lowerKey c1 kHost with
@@ -223,11 +226,14 @@ def normalizeWith (fields : List Str) (c0 : Ctx) : Except Exc Key :=
         | .error e => .error e
         | .ok c4 => match freezeKey c4 kSocksOptions with
           | .error e => .error e
-          | .ok c5 => match freezeSockOpts c5 with
-            | .error e => .error e
-            | .ok c6 => match renameLoop (keys c6) c6 with
-              | .error e => .error e
-              | .ok c7 => construct fields (defaultBlock (fillMissing fields c7))
+          | .ok c5 => freezeSockOpts c5
+
+def normalizeWith (fields : List Str) (c0 : Ctx) : Except Exc Key :=
+  match pre c0 with
+  | .error e => .error e
+  | .ok c6 => match renameLoop (keys c6) c6 with
+    | .error e => .error e
+    | .ok c7 => construct fields (defaultBlock (fillMissing fields c7))
 
 /-- `functools.partial(_default_key_normalizer, PoolKey)` -/
 def normalize (c : Ctx) : Except Exc Key := normalizeWith Gen.poolKeyFields c
@@ -330,6 +336,10 @@ keywords are all accepted by the pool / connection constructors satisfies this
 one entry with another (`{"file": x, "key_file": y}`), see `C18_clash_witness`. -/
 def NoClash (c : Ctx) : Prop := ∀ k ∈ keys c, keyPrefix ++ k ∉ keys c
 
+instance (c : Ctx) : Decidable (IsDict c) := inferInstanceAs (Decidable (keys c).Nodup)
+instance (c : Ctx) : Decidable (NoClash c) :=
+  inferInstanceAs (Decidable (∀ k ∈ keys c, keyPrefix ++ k ∉ keys c))
+
 /-- absent ≡ `None` -/
 def optV (o : Option Val) : Val := o.getD .none
 
@@ -355,5 +365,28 @@ def CtxEquiv (c₁ c₂ : Ctx) : Prop := ∀ kw, FieldEquiv kw (optV (get c₁ k
 
 /-- `"key_" + kw` -/
 def keyField (kw : Str) : Str := keyPrefix ++ kw
+
+/-- the positional arguments of the pool / connection constructors (also part of the key) -/
+def positional : List Str := [kHost, kPort, kScheme]
+
+/-- constructor keywords that are deliberately *not* part of `PoolKey`: `HTTPConnection(proxy=,
+proxy_config=)` are filled in by `HTTPConnectionPool.__init__` from its own `_proxy` /
+`_proxy_config` (which are key fields); a caller who supplies them through the manager is rejected
+by the key constructor.  Hand-kept on purpose: a new constructor keyword that is neither keyed nor
+listed here breaks `C18_every_keyword_keyed_or_rejected`. -/
+def internalKeywords : List Str := [lit "proxy", lit "proxy_config"]
+
+/-- every keyword some pool / connection constructor accepts by name, plus `scheme` (which
+`connection_from_host` adds) and `_socks_options` (a `PoolKey` field consumed by the SOCKS pool
+classes in `contrib`) -/
+def acceptedKeywords : List Str :=
+  Gen.poolCtorKeywords ++ Gen.connCtorKeywords ++ [kScheme, kSocksOptions]
+
+/-- named parameters of `PoolManager` / `ProxyManager`: manager-level (`num_pools`, `headers` =
+the manager's per-request default headers, not a pool setting) or translated by
+`ProxyManager.__init__` into the keyed `_proxy`, `_proxy_headers`, `_proxy_config` -/
+def managerLevelKeywords : List Str :=
+  [lit "num_pools", lit "headers", lit "proxy_url", lit "proxy_headers", lit "proxy_ssl_context",
+   lit "use_forwarding_for_https", lit "proxy_assert_hostname", lit "proxy_assert_fingerprint"]
 
 end U3.PoolKey
